@@ -2,6 +2,7 @@
 package main
 
 import (
+	"bytes"
 	"context"
 	"fmt"
 	stdlog "log"
@@ -328,7 +329,14 @@ func c14sites(c *Ctx) {
 			c.R.Violation(idx, "record", sig("no-record"), fmt.Sprintf("expected one record at the logger's writer, saw %d (%s)", len(evs), clip(fmtEvents(log.Events()), 300)), desc)
 			return
 		}
-		d, err := decodeRecord(cl.f, evs[0].Data, true, true)
+		data := evs[0].Data
+		if c.Testing && strings.Contains(e.name, "stackerr") {
+			// under go test the library appends a multi-line dump of an error that carries a stack trace AFTER the record (by design, see C06); the record is the first line
+			if i := bytes.IndexByte(data, '\n'); i >= 0 {
+				data = data[:i+1]
+			}
+		}
+		d, err := decodeRecord(cl.f, data, true, true)
 		if err != nil {
 			c.R.Violation(idx, "decode", sig("decode"), err.Error()+": "+q(clip(string(evs[0].Data), 300)), desc)
 			return
